@@ -286,6 +286,7 @@ let fam_vsem () =
     | 6 -> OSolve (nat ())
     | 8 -> let i = nat () in let t = int () in
            OPSolve (i, nat_of_int (if kind <> 0 then 0 else if t = 0 then 2 else 6))
+    | 9 -> OGet2 (nat ())
     | _ -> OSMove) in
   let is_psolve = Array.of_list (List.map (function OPSolve _ -> true | _ -> false) ops) in
   List.iteri (fun k tk -> out (match tk with
